@@ -223,3 +223,54 @@ def covers_all_columns_simple(recv):
     while it[0] == "call" and it[1].rsplit("::", 1)[-1] in ("enumerate", "into_iter", "by_ref"):
         it = base_iter(it[3][0])
     return it[0] == "call" and it[1].rsplit("::", 1)[-1] in ("column_iter_mut", "par_column_iter_mut")
+
+
+def sequence_of(ev, env, term, effs=None):
+    """A collection built element by element, in iteration order:
+       collect(map(IT, f))                       -> ('seq', IT, f(elem IT))
+       Vec::new()/with_capacity + push in a loop -> ('seq', IT, pushed value)
+    IT is the (normalised) driving iterator; the value term mentions ('elem', IT). None if not recognised."""
+    t = term
+    while t[0] in ("mutated",):
+        t = t[1]
+    if t[0] == "payload" and t[2] == "ok":
+        t = t[1]
+    if t[0] == "opt":
+        t = t[1]
+    t0 = t
+    while t0[0] == "mutated":
+        t0 = t0[1]
+    if t0[0] == "call" and t0[1].rsplit("::", 1)[-1] in ("collect", "from_iter"):
+        m = base_iter(t0[3][0])
+        if m[0] == "call" and m[1].rsplit("::", 1)[-1] == "map" and len(m[3]) == 2 and m[3][1][0] == "closure":
+            it = base_iter(m[3][0])
+            cb = ev.facts.bodies.get(m[3][1][1])
+            if cb is not None:
+                v = ev.ret_val(Env(cb, {1: m[3][1], 2: ("elem", it)}, env.depth + 1))
+                return ("seq", norm_elems(it), norm_elems(v))
+        return None
+    # push form
+    from rules_stats2 import base_alloc
+    alloc = base_alloc(term)
+    if alloc[0] == "call" and alloc[1].rsplit("::", 1)[-1] in ("new", "with_capacity") and "Vec" in alloc[1]:
+        if effs is None:
+            effs = list(iteration_effects(ev, env))
+        pushes = [e for e in effs if e.kind == "call" and e.name == "push" and "Vec" in e.cid and base_alloc(e.args[0]) == alloc]
+        if len(pushes) != 1:
+            return None
+        e = pushes[0]
+        val = e.args[1]
+        # the loop that contains the push
+        b = e.body
+        it = None
+        for h, blk in b.natural_loops().items():
+            if e.block in blk:
+                for lb in sorted(blk):
+                    tt = b.blocks[lb]["term"]
+                    if tt["k"] == "call" and "fn" in tt and callee_id(tt["fn"]) == "std::iter::Iterator::next":
+                        it = base_iter(ev.operand(e.env, tt["args"][0], (lb, None)))
+        if it is None:
+            return None
+        # every iteration pushes exactly once or leaves the function without returning the vector: checked by callers via CFG if needed
+        return ("seq", norm_elems(it), val)
+    return None
